@@ -12,7 +12,7 @@ from checks import thr_common as T
 INVARIANTS = ["TypeOK", "RunsOnce", "JoinAfterExit", "JoinValue", "ResultVisible", "SpawnFailsCleanly",
               "ReleasedExactlyOnce", "NoUseAfterRelease", "ClosureFreedUnlessPanic", "ResultDropped",
               "BaselineRestored"]
-FIXED = {"RecheckWord": True, "RecheckDrop": True, "CheckClone": True, "MmapFirst": True, "DropResult": True}
+FIXED = {"RecheckWord": True, "RecheckDrop": True, "CheckClone": True, "RetryClone": False, "MmapFirst": True, "DropResult": True}
 
 H_ACTIONS = {"HStartSpawn", "AllocTsm", "BoxClosure", "AfterClosure", "AllocTlsPinned", "Clone", "ReturnHandle",
              "HSkipOp", "JoinStart", "LoadAcquire", "LoadRelaxed", "FutexWait", "JoinReadSlot", "JoinFreeTsm",
@@ -39,7 +39,7 @@ def write_cfg(path, prog, fin, spurious=1, failm="NoThread", failc="NoThread", v
     nt = len(FINS[fin])
     lines = ["SPECIFICATION Spec", "CONSTANTS", " NT = %d" % nt, " Prog <- %s" % prog, " Fin <- %s" % fin,
              " Spurious = %d" % spurious, " FailMmap <- %s" % failm, " FailClone <- %s" % failc]
-    for k in ("RecheckWord", "RecheckDrop", "CheckClone", "MmapFirst", "DropResult"):
+    for k in ("RecheckWord", "RecheckDrop", "CheckClone", "RetryClone", "MmapFirst", "DropResult"):
         lines.append(" %s = %s" % (k, tla_bool(v[k])))
     lines.append(" KernelAtomic = %s" % tla_bool(katomic))
     if invariants:
@@ -111,6 +111,9 @@ DEFECT_VARIANTS = [
      {"NoUseAfterRelease"}),
     ("pinned-clone-unchecked", "ProgJ", "FinR", "NoThread", "Only1", {"CheckClone": False},
      {"SpawnFailsCleanly", "deadlock"}),
+    # unbounded retry while clone fails: with a persistent failure spawn never returns (liveness)
+    ("retry-clone-on-eagain", "ProgJ", "FinR", "NoThread", "Only1", {"RetryClone": True},
+     {"liveness"}),
     ("pinned-mmap-late", "ProgJ", "FinR", "Only1", "NoThread", {"MmapFirst": False},
      {"SpawnFailsCleanly", "BaselineRestored"}),
     ("pinned-result-forgotten", "ProgD", "FinR", "NoThread", "NoThread", {"DropResult": False},
@@ -126,10 +129,12 @@ def defect_variants(chk):
     out = []
     for name, prog, fin, fm, fc, var, expect in DEFECT_VARIANTS:
         cfg = os.path.join(d, name + ".cfg")
-        write_cfg(cfg, prog, fin, 1, fm, fc, variant=var, liveness=False)
+        write_cfg(cfg, prog, fin, 1, fm, fc, variant=var, liveness=("liveness" in expect))
         res = core.run_tlc("ThreadLife_MC", cfg, workers=1, timeout=300, extra=["-continue"])
         chk.add_tlc(res)
         found = set(res.invariant_violated)
+        if re.search(r"Temporal propert(y|ies) .*violated", res.out):
+            found.add("liveness")
         if "Deadlock reached" in res.out:
             found.add("deadlock")
         if not (found & expect):
@@ -447,7 +452,7 @@ def alg_validate(chk, col, cap=None, tag=""):
         cfg = os.path.join(d, name + ".cfg")
         lines = ["INIT AInit", "NEXT ANext", "CONSTANTS", " NT = 1", " Prog <- %s" % cls[0], " Fin <- %s" % cls[1],
                  " Spurious = 1", " FailMmap <- %s" % cls[2], " FailClone <- %s" % cls[3],
-                 " RecheckWord = TRUE", " RecheckDrop = TRUE", " CheckClone = TRUE", " MmapFirst = TRUE", " DropResult = TRUE",
+                 " RecheckWord = TRUE", " RecheckDrop = TRUE", " CheckClone = TRUE", " RetryClone = FALSE", " MmapFirst = TRUE", " DropResult = TRUE",
                  " KernelAtomic = FALSE", "INVARIANT Report", "CHECK_DEADLOCK FALSE"]
         open(cfg, "w").write("\n".join(lines) + "\n")
         jobs.append((name, cls, lst, path, cfg))
@@ -574,6 +579,13 @@ def abstract_events(nodes, path, prog, variant):
     last = nodes[path[-1][1]] if path else None
     if last is not None:
         term = last["hpc"] == "done" and all(t in ("none", "gone") for t in last["tpc"])
+        if not term and last["hpc"] != "done":
+            # the model is stuck inside an owner operation (deadlock / endless retry): on the real
+            # code this is what the watchdog reports as a timeout inside that operation
+            hop = int(last["raw"]["hop"])
+            if hop <= len(ops):
+                o = ops[hop - 1]
+                evs[int(o[1])].append({"e": "timeout", "op": {"s": "spawn", "j": "join", "d": "drop"}[o[0]]})
         for p in evs:
             held = _vals(last["raw"], "handle")[p - 1] == "held"
             evs[p].append({"e": "end", "kept": held, "sys": True, "dv": True, "quiet": term})
